@@ -84,12 +84,21 @@ func monC22(h *Hist, o *TxnObs) {
 	}
 	total := int64(fees + blockReward)
 	h.C("C22", "fee_splits_checked")
+	if fees > 0 && fees < 16 {
+		h.C("C22", "fee_splits_with_block_fees_below_16")
+		if h.allRewardable(o.Pre) {
+			h.C("C22", "fee_splits_with_block_fees_below_16_all_rewardable")
+		}
+	}
 	paidBefore, _ := o.Call.Meta["paid_before_in_round"].(bool)
 	if credited > total {
 		h.V("C22", "more-credited-than-fees-plus-reward", fmt.Sprintf("block fees %d + block reward %d = %d but miner/sharder rewards rose by %d", fees, blockReward, total, credited), o)
 	} else if credited < total && !paidBefore {
 		// tokens not credited: acceptable only when a recipient may not be rewarded (killed / under-staked, C10); count and report
 		h.C("C22", "fee_splits_with_uncredited_remainder")
+		if !h.allRewardable(o.Pre) {
+			h.C("C22", "fee_splits_with_uncredited_remainder_and_unrewardable_recipient")
+		}
 		if h.allRewardable(o.Pre) {
 			sig := "fees-or-reward-lost"
 			for _, n := range h.NodesOfType(o.Pre, "*minersc.GlobalNode") {
